@@ -429,6 +429,26 @@ pub fn mapset(cfg: GenCfg) -> impl Strategy<Value = MapSet> {
 }
 
 /// mapping set + the raw draws are not needed by callers; a second independent seed for orders
+/// Namespace names that are easy to confuse: equal up to ASCII case, one a prefix of the other, single letters, a blank
+/// inside (the header is split at tabs only), non-ASCII. `draw` < 160 keeps the usual names.
+pub fn confusable_namespaces(m: &mut MapSet, draw: u8) -> bool {
+	if draw < 160 || m.ns.len() < 2 {
+		return false;
+	}
+	let n = m.ns.len();
+	let names: Vec<String> = match draw % 6 {
+		0 => ["named", "NAMED", "Named", "nAMED"][..n].iter().map(|s| s.to_string()).collect(),
+		1 => ["a", "A", "b", "B"][..n].iter().map(|s| s.to_string()).collect(),
+		2 => ["named", "named2", "name", "nam"][..n].iter().map(|s| s.to_string()).collect(),
+		3 => ["official", "OFFICIAL", "intermediary", "Intermediary"][..n].iter().map(|s| s.to_string()).collect(),
+		4 => ["left side", "left", "side", "left side "][..n].iter().map(|s| s.to_string()).collect(),
+		_ => ["\u{149}amed", "named", "\u{212a}", "K"][..n].iter().map(|s| s.to_string()).collect(),
+	};
+	// the more distinctive names go last so that 2-namespace sets get the closest pair
+	m.ns = names;
+	true
+}
+
 pub fn order_seed() -> impl Strategy<Value = u64> {
 	prop_oneof![Just(0u64), any::<u64>()]
 }
